@@ -31,7 +31,7 @@ CONSTANTS
   SatSecs,      \* whole seconds of a saturated time.Time.Sub (real: 9223372037)
   Advs,         \* clock advances between updates (units)
   Offs,         \* measured offsets (model values)
-  Weights,      \* measurement weights
+  Weights,      \* measurement weights (float64: integers, or WNaN / WPosInf / WNegInf)
   AllowSat,     \* BOOLEAN: also saturating advances (>= 2^63 ns)
   BumpDen,      \* an external epoch bump happens for 1 of BumpDen choices
   InitClkEpochs,\* clock epoch at creation of the Pll (Pll.epoch starts at 0)
@@ -43,6 +43,22 @@ CONSTANTS
   DurationWraps       \* timemath.Duration(ceil(dt)) overflowed int64 when Sub saturated
 
 OffMin == -OffMax - 1
+
+(***************************************************************************)
+(* Weights are float64.  Finite ones are modelled by integers; three       *)
+(* reserved values stand for NaN, +Inf and -Inf.  Comparisons follow       *)
+(* IEEE-754 as Go does: every ordered comparison with NaN is false (so     *)
+(* `weight > 3` is false and `weight <= 3` is false too), +Inf is above    *)
+(* and -Inf below every finite value.                                      *)
+(***************************************************************************)
+WNaN    == -999
+WPosInf == 998
+WNegInf == -998
+WGt(w, c) == IF w = WNaN THEN FALSE ELSE IF w = WPosInf THEN TRUE ELSE IF w = WNegInf THEN FALSE ELSE w > c
+WLt(w, c) == IF w = WNaN THEN FALSE ELSE IF w = WPosInf THEN FALSE ELSE IF w = WNegInf THEN TRUE ELSE w < c
+\* tracking: `if weight < 50 {lo} else if weight < 150 {mid} else {stiffening l.a, l.b}`;
+\* NaN and +Inf fail both tests and take the third branch
+GainClass(w) == IF WLt(w, 50) THEN "lo" ELSE IF WLt(w, 150) THEN "mid" ELSE "stiff"
 NegDur == -1                          \* a negative time.Duration (overflowed conversion)
 SatDur == (SatSecs - 1) * U + 1       \* saturated Sub: more than every threshold
 
@@ -99,7 +115,7 @@ Do(in, raw) ==
       mdt     == TSub(now1, t0)
       dt      == TSub(now1, t)
       \* case 1: awaiting step
-      fire1   == m = 1 /\ mdt > 2 * U /\ in.w > 3
+      fire1   == m = 1 /\ mdt > 2 * U /\ WGt(in.w, 3)   \* weight > 3 (false for NaN)
       step    == fire1 /\ GoAbs(offset) > OneMs
       stepx   == IF StepUsesDoubleInv THEN Inv(offset) ELSE in.off
       \* case 2: awaiting PLL
@@ -126,7 +142,7 @@ Do(in, raw) ==
   /\ lastIn' = [off |-> in.off, w |-> in.w, modeB |-> mode, obs |-> changed,
                 since |-> TSub(now1, es1), dt |-> TSub(now1, now)]
   /\ hist' = Append(hist, [adv |-> in.adv, sat |-> in.sat, bump |-> in.bump, off |-> in.off, w |-> in.w,
-                           mode |-> m2,
+                           mode |-> m2, gc |-> IF m = 3 THEN GainClass(in.w) ELSE "none",
                            k |-> IF step THEN "step" ELSE IF d > 0 THEN "adjust" ELSE "none",
                            x |-> IF step THEN stepx ELSE 0,
                            d |-> IF d > 0 /\ ~step THEN DurOf(d) ELSE 0])
@@ -168,8 +184,8 @@ TypeOK ==
 StepModeP(a, li)   == a.k = "step" => (li.modeB = 1 /\ ~li.obs)
 \* ... more than 2 s after the start of the current clock epoch ...
 StepWaitP(a, li)   == a.k = "step" => li.since > 2 * U
-\* ... measurement weight above 3 ...
-StepWeightP(a, li) == a.k = "step" => li.w > 3
+\* ... measurement weight above 3 (NaN is not above 3) ...
+StepWeightP(a, li) == a.k = "step" => WGt(li.w, 3)
 \* ... offset above 1 ms ...
 StepOffsetP(a, li) == a.k = "step" => Abs(li.off) > OneMs
 \* ... and by exactly the measured offset
